@@ -101,6 +101,9 @@ impl PSock {
             libc::setsockopt(fd, libc::SOL_SOCKET, libc::SO_RCVBUF, &sz as *const _ as *const libc::c_void, 4);
             let one: i32 = 1;
             libc::setsockopt(fd, libc::SOL_SOCKET, libc::SO_TIMESTAMPNS, &one as *const _ as *const libc::c_void, 4);
+            // software transmit timestamps (read back from the error queue by `send_ts`), software receive timestamps
+            let flags: u32 = libc::SOF_TIMESTAMPING_TX_SOFTWARE | libc::SOF_TIMESTAMPING_RX_SOFTWARE | libc::SOF_TIMESTAMPING_SOFTWARE | libc::SOF_TIMESTAMPING_OPT_TSONLY;
+            libc::setsockopt(fd, libc::SOL_SOCKET, libc::SO_TIMESTAMPING, &flags as *const _ as *const libc::c_void, 4);
             Ok(PSock { fd, ifindex: idx as i32, udp, ip_id: std::cell::Cell::new(1) })
         }
     }
@@ -136,6 +139,50 @@ impl PSock {
             n == data.len() as isize
         }
     }
+    /// send and return the kernel's software transmit timestamp (system time, ns) of the frame, if it arrives in time
+    pub fn send_ts(&self, ptp: &[u8]) -> Option<u128> {
+        // drop stale entries of the error queue
+        while self.read_errqueue().is_some() {}
+        if !self.send(ptp) {
+            return None;
+        }
+        let t0 = Instant::now();
+        while t0.elapsed() < Duration::from_millis(3) {
+            if let Some(ts) = self.read_errqueue() {
+                return Some(ts);
+            }
+            std::thread::sleep(Duration::from_micros(20));
+        }
+        None
+    }
+
+    fn read_errqueue(&self) -> Option<u128> {
+        unsafe {
+            let mut buf = [0u8; 256];
+            let mut iov = libc::iovec { iov_base: buf.as_mut_ptr() as *mut libc::c_void, iov_len: buf.len() };
+            let mut ctrl = [0u64; 32];
+            let mut mh: libc::msghdr = std::mem::zeroed();
+            mh.msg_iov = &mut iov;
+            mh.msg_iovlen = 1;
+            mh.msg_control = ctrl.as_mut_ptr() as *mut libc::c_void;
+            mh.msg_controllen = std::mem::size_of_val(&ctrl) as _;
+            let n = libc::recvmsg(self.fd, &mut mh, libc::MSG_ERRQUEUE | libc::MSG_DONTWAIT);
+            if n < 0 {
+                return None;
+            }
+            let mut c = libc::CMSG_FIRSTHDR(&mh);
+            let mut out = None;
+            while !c.is_null() {
+                if (*c).cmsg_level == libc::SOL_SOCKET && (*c).cmsg_type == libc::SCM_TIMESTAMPING {
+                    let ts: libc::timespec = std::ptr::read_unaligned(libc::CMSG_DATA(c) as *const libc::timespec);
+                    out = Some(ts.tv_sec as u128 * 1_000_000_000 + ts.tv_nsec as u128);
+                }
+                c = libc::CMSG_NXTHDR(&mh, c);
+            }
+            out.or(Some(0)).filter(|x| *x != 0)
+        }
+    }
+
     /// next frame that arrived on the interface (frames we sent ourselves are skipped)
     pub fn recv(&self) -> Option<Vec<u8>> {
         self.recv_ts().map(|x| x.0)
@@ -163,9 +210,12 @@ impl PSock {
                 let mut at = now_ns();
                 let mut c = libc::CMSG_FIRSTHDR(&mh);
                 while !c.is_null() {
-                    if (*c).cmsg_level == libc::SOL_SOCKET && (*c).cmsg_type == libc::SCM_TIMESTAMPNS {
+                    if (*c).cmsg_level == libc::SOL_SOCKET && ((*c).cmsg_type == libc::SCM_TIMESTAMPNS || (*c).cmsg_type == libc::SCM_TIMESTAMPING) {
+                        // SCM_TIMESTAMPING carries three timespecs, the first is the software one
                         let ts: libc::timespec = std::ptr::read_unaligned(libc::CMSG_DATA(c) as *const libc::timespec);
-                        at = ts.tv_sec as u128 * 1_000_000_000 + ts.tv_nsec as u128;
+                        if ts.tv_sec != 0 {
+                            at = ts.tv_sec as u128 * 1_000_000_000 + ts.tv_nsec as u128;
+                        }
                     }
                     c = libc::CMSG_NXTHDR(&mh, c);
                 }
@@ -310,6 +360,10 @@ pub struct World {
     /// a symmetric link of `link_delay_ns`
     pub emulate_master: bool,
     pub link_delay_ns: u64,
+    /// the emulated grandmaster's clock = system time + offset + drift x (system time - epoch)
+    pub gm_offset_ns: i128,
+    pub gm_drift_ppm: f64,
+    pub gm_epoch_ns: u128,
     sync_seq: u16,
     pub delay_resps_sent: u64,
     /// poll the observation socket this often from the event loop and apply `obs_invariants` (problems collected)
@@ -402,6 +456,9 @@ impl World {
             slave_idx: if variant.swap { 1 } else { 0 },
             emulate_master: false,
             link_delay_ns: 100_000,
+            gm_offset_ns: 0,
+            gm_drift_ppm: 0.0,
+            gm_epoch_ns: now_ns(),
             sync_seq: 0,
             delay_resps_sent: 0,
             poll_obs_ms: None,
@@ -493,7 +550,7 @@ impl World {
                 }
             }
         }
-        while let Some(f) = self.a1.recv() {
+        while let Some((f, at_a)) = self.a1.recv_ts() {
             if let Ok(m) = decode(&f) {
                 if m.header.source.clock == self.own_identity {
                     self.log.push(('a', m.header.msg_type, Instant::now()));
@@ -505,7 +562,7 @@ impl World {
                     self.seen_a_delay_req.push(m.header.seq);
                     if self.emulate_master {
                         // as if it had arrived one link delay from now
-                        let t4 = now_ns() + self.link_delay_ns as u128;
+                        let t4 = self.gm_clock(at_a) + self.link_delay_ns as u128;
                         let r = RMsg::new(T_DELAY_RESP, PARENT, m.header.seq, RBody::DelayResp { receive: RTs::from_ns(t4), requesting: m.header.source });
                         self.a1.send(&r.encode());
                         self.delay_resps_sent += 1;
@@ -635,14 +692,20 @@ impl World {
         PortId { clock: self.own_identity, port: self.slave_idx as u16 + 1 }
     }
 
+    /// reading of the emulated grandmaster's clock at system time `sys_ns`
+    pub fn gm_clock(&self, sys_ns: u128) -> u128 {
+        let el = sys_ns as i128 - self.gm_epoch_ns as i128;
+        (sys_ns as i128 + self.gm_offset_ns + (el as f64 * self.gm_drift_ppm / 1e6) as i128).max(0) as u128
+    }
+
     fn emulate_sync(&mut self) {
         self.sync_seq = self.sync_seq.wrapping_add(1);
         let mut m = RMsg::new(T_SYNC, PARENT, self.sync_seq, RBody::Sync { origin: RTs::default() });
         m.header.set_flag(F_TWO_STEP, true);
         m.header.log_interval = ANN_LOG;
         // as if it had left one link delay ago
-        let t1 = now_ns().saturating_sub(self.link_delay_ns as u128);
-        self.a1.send(&m.encode());
+        let sent_at = self.a1.send_ts(&m.encode()).unwrap_or_else(now_ns);
+        let t1 = self.gm_clock(sent_at).saturating_sub(self.link_delay_ns as u128);
         let mut f = RMsg::new(T_FOLLOW_UP, PARENT, self.sync_seq, RBody::FollowUp { precise_origin: RTs::from_ns(t1) });
         f.header.log_interval = ANN_LOG;
         self.a1.send(&f.encode());
@@ -1659,6 +1722,90 @@ pub fn case_c10(w: &mut World, t: &mut Tape) -> E2eOut {
     E2eOut { out, inconclusive: None }
 }
 
+// ---------------------------------------------------------------- C02 case (the real servo steering the daemon's clock)
+
+/// One case: the harness is a grandmaster whose clock differs from the system clock by a generated offset and
+/// drift; the daemon's slave port locks to it and the daemon's *other* port, being master, stamps its Sync/Follow_Up
+/// with the daemon's (steered, virtual) clock - so every Follow_Up shows the daemon's clock at a moment the kernel
+/// stamped on arrival, and the difference to the grandmaster's clock at that moment is the true offset.
+pub fn case_c02(w: &mut World, t: &mut Tape) -> E2eOut {
+    let mut out = CaseOut::new();
+    let mag = match t.weighted(&[1, 2, 2, 2]) {
+        0 => 0i128,
+        1 => t.below(1_000_000) as i128,
+        2 => t.below(100_000_000) as i128,
+        _ => t.below(5_000_000_000) as i128,
+    };
+    w.gm_offset_ns = if t.bool() { -mag } else { mag };
+    w.gm_drift_ppm = match t.weighted(&[1, 3]) {
+        0 => 0.0,
+        _ => t.range(-100_000, 100_000) as f64 / 1000.0,
+    };
+    w.gm_epoch_ns = now_ns();
+    w.link_delay_ns = 0;
+    w.emulate_master = true;
+    let run_s: u64 = std::env::var("VERIF_C02_E2E_SECS").ok().and_then(|x| x.parse().ok()).unwrap_or(30);
+    w.frames_b.clear();
+    w.keep_frames = true;
+    let t0 = Instant::now();
+    let mut samples: Vec<(f64, f64)> = vec![]; // (seconds since start, offset ns)
+    let mut syncs: std::collections::HashMap<u16, u128> = Default::default();
+    while t0.elapsed() < Duration::from_secs(run_s) {
+        let d = Instant::now() + Duration::from_millis(200);
+        w.run_until(d);
+        for (at, m) in std::mem::take(&mut w.frames_b) {
+            match &m.body {
+                RBody::Sync { .. } => {
+                    syncs.insert(m.header.seq, at);
+                }
+                RBody::FollowUp { precise_origin } => {
+                    if let Some(at) = syncs.remove(&m.header.seq) {
+                        let daemon_clock = precise_origin.total_ns() as i128 + ((m.header.correction as i128) >> 16);
+                        let gm = w.gm_clock(at) as i128;
+                        samples.push((t0.elapsed().as_secs_f64(), (daemon_clock - gm) as f64));
+                    }
+                }
+                _ => {}
+            }
+        }
+    }
+    w.keep_frames = false;
+    w.emulate_master = false;
+    let trace: Vec<String> = samples.iter().step_by((samples.len() / 30).max(1)).map(|(s, o)| format!("{:.1}s:{:.0}", s, o)).collect();
+    let rendered = json!({"gm_offset_ns": w.gm_offset_ns.to_string(), "gm_drift_ppm": w.gm_drift_ppm, "run_s": run_s, "samples": samples.len(), "trace(ns)": trace});
+    out.render = rendered.clone();
+    if !w.alive() {
+        out.fail("daemon exited", rendered.to_string());
+    } else if !w.steady() {
+        w.gm_offset_ns = 0;
+        w.gm_drift_ppm = 0.0;
+        return E2eOut { out, inconclusive: Some(format!("daemon not (Slave, Master) at the end: {:?}", w.port_states())) };
+    } else {
+        // the last quarter of the run (at least 5 s): median and 90th percentile of |offset|
+        let from = run_s as f64 * 0.75;
+        let mut tail: Vec<f64> = samples.iter().filter(|(s, _)| *s >= from).map(|(_, o)| o.abs()).collect();
+        tail.sort_by(|a, b| a.partial_cmp(b).unwrap());
+        if tail.len() < 10 {
+            w.gm_offset_ns = 0;
+            w.gm_drift_ppm = 0.0;
+            return E2eOut { out, inconclusive: Some(format!("only {} Sync/Follow_Up pairs of the daemon's master port seen in the last quarter", tail.len())) };
+        }
+        let median = tail[tail.len() / 2];
+        let p90 = tail[tail.len() * 9 / 10];
+        // stated real-time tolerance (calibration: DESIGN.md 0.2): loose in the 30 s quick runs, tighter in longer ones
+        let (b_med, b_p90) = if run_s >= 60 { (100_000.0, 400_000.0) } else { (1_000_000.0, 3_000_000.0) };
+        if median > b_med || p90 > b_p90 {
+            out.fail("daemon: clock of the slave daemon does not stay near its master's within the stated tolerance", format!("last quarter of {} s: median |offset| {:.0} ns (allowed {:.0}), 90th percentile {:.0} ns (allowed {:.0}) ; {}", run_s, median, b_med, p90, b_p90, rendered));
+        }
+        out.label(format!("daemon:median-offset<={}us", [1.0, 3.0, 10.0, 30.0, 100.0, 1000.0, 1e9].iter().find(|x| median / 1000.0 <= **x).unwrap()));
+    }
+    out.nontrivial = Some(hash_of(&format!("{}{}", w.gm_offset_ns, w.gm_drift_ppm)));
+    // back to the system clock for the next case
+    w.gm_offset_ns = 0;
+    w.gm_drift_ppm = 0.0;
+    E2eOut { out, inconclusive: None }
+}
+
 // ---------------------------------------------------------------- worker / parent plumbing
 
 /// `vcheck E2E-WORKER <prop> <seed> <first> <count> <stride> [tape.json]`
@@ -1743,6 +1890,7 @@ pub fn worker_main(args: &[String]) -> i32 {
             "C17" => case_c17(&mut w, &mut tape),
             "C12" => case_c12(&mut w, &mut tape),
             "C10" => case_c10(&mut w, &mut tape),
+            "C02" => case_c02(&mut w, &mut tape),
             _ => {
                 println!("{}", json!({"fatal": format!("no end-to-end case for {}", prop)}));
                 return 2;
